@@ -72,15 +72,28 @@ def strip_lean_comments(src: str) -> str:
 
 
 def lean_sources_for(pid: str) -> List[str]:
-    """All Lean sources a property's theorems can depend on (its own dir + Common)."""
-    res = []
-    for d in (os.path.join(LEAN_DIR, "Ptn", pid), os.path.join(LEAN_DIR, "Ptn", "Common")):
-        if os.path.isdir(d):
-            for root, _, files in os.walk(d):
-                for f in sorted(files):
-                    if f.endswith(".lean"):
-                        res.append(os.path.join(root, f))
-    return res
+    """All project Lean sources a property's theorems depend on: the transitive `import Ptn.…`
+    closure of Ptn/<pid>/Props.lean plus the property's own directory."""
+    seen: Dict[str, bool] = {}
+    stack = [f"Ptn.{pid}.Props"]
+    d = os.path.join(LEAN_DIR, "Ptn", pid)
+    if os.path.isdir(d):
+        for f in sorted(os.listdir(d)):
+            if f.endswith(".lean"):
+                stack.append(f"Ptn.{pid}.{f[:-5]}")
+    while stack:
+        mod = stack.pop()
+        if mod in seen:
+            continue
+        path = os.path.join(LEAN_DIR, *mod.split(".")) + ".lean"
+        if not os.path.exists(path):
+            continue
+        seen[mod] = True
+        for line in open(path):
+            m = re.match(r"\s*(?:public\s+)?import\s+(Ptn\.[A-Za-z0-9_.]+)", line)
+            if m:
+                stack.append(m.group(1))
+    return [os.path.join(LEAN_DIR, *m.split(".")) + ".lean" for m in sorted(seen)]
 
 
 def read_obligations(pid: str) -> List[str]:
